@@ -815,8 +815,39 @@ func checkPowerLevelEventV2(sender string, createEvent PDU, oldPowerLevels, newP
 	}
 	notificationLevelChecks := []levelPair{}
 
+	// Only "room" has a default level (50). Any other key has the level its
+	// entry gives it and none without an entry, so an entry that is added or
+	// removed is judged on its own value, not against an invented 50: otherwise
+	// anybody could add "foo": 50, or remove it, and nobody could add "foo": 10.
+	onlyInOne := func(notification string) bool {
+		_, inOld := oldPowerLevels.Notifications[notification]
+		_, inNew := newPowerLevels.Notifications[notification]
+		return notification != "room" && inOld != inNew
+	}
+	for notification, level := range newPowerLevels.Notifications {
+		if onlyInOne(notification) && senderLevel < level {
+			return errorf(
+				"sender with level %d is not allowed to add notification level %d"+
+					" because the new level is above the level of the sender",
+				senderLevel, level,
+			)
+		}
+	}
+	for notification, level := range oldPowerLevels.Notifications {
+		if onlyInOne(notification) && senderLevel <= level {
+			return errorf(
+				"sender with level %d is not allowed to remove notification level %d"+
+					" because the old level is equal to or above the level of the sender",
+				senderLevel, level,
+			)
+		}
+	}
+
 	// Then add checks for each notification key in the new levels.
 	for notification := range newPowerLevels.Notifications {
+		if onlyInOne(notification) {
+			continue
+		}
 		notificationLevelChecks = append(notificationLevelChecks, levelPair{
 			oldPowerLevels.NotificationLevel(notification),
 			newPowerLevels.NotificationLevel(notification),
@@ -828,6 +859,9 @@ func checkPowerLevelEventV2(sender string, createEvent PDU, oldPowerLevels, newP
 	// Some of these will be duplicates of the ones added using the keys from
 	// the new levels. But it doesn't hurt to run the checks twice for the same level.
 	for notification := range oldPowerLevels.Notifications {
+		if onlyInOne(notification) {
+			continue
+		}
 		notificationLevelChecks = append(notificationLevelChecks, levelPair{
 			oldPowerLevels.NotificationLevel(notification),
 			newPowerLevels.NotificationLevel(notification),
